@@ -66,6 +66,7 @@ type DStep struct {
 	Op     string `json:"op"`
 	N      int    `json:"n"`
 	T      int    `json:"t"`
+	Tk     int    `json:"tk"` // new: threshold the distributed keys were generated with (0 = t)
 	P      int    `json:"p"`
 	Kind   string `json:"kind"`
 	Var    string `json:"var"` // othermsg: which other message (relative to the session's)
@@ -214,13 +215,53 @@ func rabinDKG(suite *edwards25519.SuiteEd25519, secs []kyber.Scalar, pubs []kybe
 	}
 	out := make([]dss.DistKeyShare, n)
 	for i, g := range gens {
-		k, err := g.DistKeyShare()
+		// DistKeyShare is a query: asking twice (once for the public key, once to build the DSS) must give
+		// the same share
+		first, err := g.DistKeyShare()
 		if err != nil {
 			return nil, err
+		}
+		k, err := g.DistKeyShare()
+		if err != nil {
+			return nil, &keyDefect{"DistKeyShare", "second-call-refused", err.Error()}
+		}
+		if first.Share.I != k.Share.I || !first.Share.V.Equal(k.Share.V) || len(first.Commits) != len(k.Commits) {
+			return nil, &keyDefect{"DistKeyShare", "second-call-differs", fmt.Sprintf("participant %d: %v then %v", i, first.Share, k.Share)}
+		}
+		for j := range k.Commits {
+			if !first.Commits[j].Equal(k.Commits[j]) {
+				return nil, &keyDefect{"DistKeyShare", "second-call-differs", fmt.Sprintf("participant %d: commitment %d", i, j)}
+			}
 		}
 		out[i] = k
 	}
 	return out, nil
+}
+
+// keyDefect: an honest DKG run completed but handed out key material that is not a sharing of one key.
+type keyDefect struct{ fn, kind, detail string }
+
+func (e *keyDefect) Error() string { return e.fn + ": " + e.kind + ": " + e.detail }
+
+// checkKeys requires every participant's share to lie on the public polynomial all of them report.
+func checkKeys(suite *edwards25519.SuiteEd25519, keys []dss.DistKeyShare) error {
+	ref := keys[0].Commitments()
+	for i, k := range keys {
+		cs := k.Commitments()
+		if len(cs) != len(ref) {
+			return &keyDefect{"DistKeyShare", "commitments-differ-between-participants", fmt.Sprint(i)}
+		}
+		for j := range cs {
+			if !cs[j].Equal(ref[j]) {
+				return &keyDefect{"DistKeyShare", "commitments-differ-between-participants", fmt.Sprint(i)}
+			}
+		}
+		sh := k.PriShare()
+		if int(sh.I) != i || !kshare.NewPubPoly(suite, nil, cs).Check(sh) {
+			return &keyDefect{"DistKeyShare", "share-off-public-polynomial", fmt.Sprintf("participant %d", i)}
+		}
+	}
+	return nil
 }
 
 func dealerKey(suite *edwards25519.SuiteEd25519, n, t int) []dss.DistKeyShare {
@@ -246,6 +287,9 @@ func distKey(src string, suite *edwards25519.SuiteEd25519, secs []kyber.Scalar, 
 	})
 	if p {
 		return nil, fmt.Errorf("panic: %s", msg)
+	}
+	if err == nil {
+		err = checkKeys(suite, out)
 	}
 	return out, err
 }
@@ -314,7 +358,7 @@ func (s *session) mkPartial(i int, rnd []dss.DistKeyShare, msg []byte, class str
 	return ps, nil
 }
 
-func newSession(src string, n, t int, class string, seed int64) (*session, error) {
+func newSession(src string, n, t, tk int, class string, seed int64) (*session, error) {
 	suite := edwards25519.NewBlakeSHA256Ed25519()
 	s := &session{src: src, n: n, t: t, suite: suite, class: class, msg: msgBytes(class), ocach: map[string]*dss.PartialSig{}}
 	st := blake2xb.New([]byte(fmt.Sprintf("C12 participants %d %s %d %d", seed, src, n, t)))
@@ -324,13 +368,13 @@ func newSession(src string, n, t int, class string, seed int64) (*session, error
 		s.pubs = append(s.pubs, suite.Point().Mul(sc, nil))
 	}
 	var err error
-	if s.long, err = distKey(src, suite, s.secs, s.pubs, t); err != nil {
+	if s.long, err = distKey(src, suite, s.secs, s.pubs, tk); err != nil {
 		return nil, err
 	}
-	if s.rnd, err = distKey(src, suite, s.secs, s.pubs, t); err != nil {
+	if s.rnd, err = distKey(src, suite, s.secs, s.pubs, tk); err != nil {
 		return nil, err
 	}
-	if s.rnd2, err = distKey(src, suite, s.secs, s.pubs, t); err != nil {
+	if s.rnd2, err = distKey(src, suite, s.secs, s.pubs, tk); err != nil {
 		return nil, err
 	}
 	for i := 0; i < n; i++ {
@@ -444,11 +488,14 @@ func (ss *sessions) refused(src string, n, t int, e *setupRefused) {
 		map[string]any{"source": src, "n": n, "t": t, "stage": e.stage, "message_class": e.class, "error": e.err.Error()})
 }
 
-func (ss *sessions) get(src string, n, t int, class string) *session {
+func (ss *sessions) get(src string, n, t, tk int, class string) *session {
+	if tk <= 0 {
+		tk = t
+	}
 	if class == "" {
 		class = "text"
 	}
-	k := fmt.Sprintf("%s/%d/%d/%s", src, n, t, class)
+	k := fmt.Sprintf("%s/%d/%d/%d/%s", src, n, t, tk, class)
 	ss.mu.Lock()
 	defer ss.mu.Unlock()
 	if s, ok := ss.m[k]; ok {
@@ -456,7 +503,7 @@ func (ss *sessions) get(src string, n, t int, class string) *session {
 	}
 	var s *session
 	var err error
-	if msg, stack, pn := core.Try(func() { s, err = newSession(src, n, t, class, ss.seed) }); pn {
+	if msg, stack, pn := core.Try(func() { s, err = newSession(src, n, t, tk, class, ss.seed) }); pn {
 		s, err = nil, fmt.Errorf("panic: %s", msg)
 		ss.panicked = true
 		if ss.res != nil {
@@ -469,6 +516,15 @@ func (ss *sessions) get(src string, n, t int, class string) *session {
 		if errors.As(err, &sr) {
 			ss.refused(src, n, t, sr)
 			ss.panicked = true // a verdict was recorded: not a machinery failure
+		}
+		var kd *keyDefect
+		if errors.As(err, &kd) {
+			ss.panicked = true
+			if ss.res != nil {
+				ss.res.Violate(fmt.Sprintf("%s/%s/setup/%s/%s", ss.prop, src, kd.fn, kd.kind),
+					fmt.Sprintf("keys for DSS from an honest %s DKG: %s %s", src, kd.fn, kd.kind),
+					map[string]any{"source": src, "n": n, "dkg_threshold": tk, "detail": kd.detail})
+			}
 		}
 		ss.errs[k] = err.Error()
 		s = nil
@@ -753,7 +809,7 @@ func RunDSS(cfg DSSConfig, res *core.Result) error {
 						continue
 					}
 				}
-				s := ss.get(src, bh[0].N, bh[0].T, bh[0].Msg)
+				s := ss.get(src, bh[0].N, bh[0].T, bh[0].Tk, bh[0].Msg)
 				if s == nil {
 					res.Skip(fmt.Sprintf("no %s session for n=%d t=%d", src, bh[0].N, bh[0].T))
 					continue
